@@ -35,6 +35,10 @@ def _tokenize(s):
             yield ((_Token.space if c in ' \t' else _Token.char), c)
             escapes = 0
 
+    # Backslashes at the very end of the string aren't escaping anything.
+    for i in range(escapes):
+        yield (_Token.char, type(s)('\\'))
+
 
 def split(s, type=list):
     if not isinstance(s, str):
